@@ -138,3 +138,25 @@ package service
 //@   callsite PackInPlace: dyntype(downlink.serverConnPacker, direct.Socks5PacketServerPacker) ==> payloadStart >= 3 + socks5.LengthOfAddrFromAddrPort(payloadSourceAddrPort)
 //@   callsite PackInPlace: dyntype(downlink.serverConnPacker, *ss2022.ShadowPacketServerPacker) ==> payloadStart >= 16 + 19 + socks5.LengthOfAddrFromAddrPort(payloadSourceAddrPort)
 //@   callsite WriteMsgUDPAddrPort: arg3 == clientAddrPort
+
+// ---------------------------------------------------------------------------
+// TCP relay (property C13): one accepted connection, sequentially. Routing is asked with the requested
+// target, the user and the client's address; the chosen client is dialled with exactly the requested target and
+// the initial payload; a failure reply (Abort) is only sent while success has not been signalled (Proceed), and
+// Proceed is called at most once; both directions are copied between the client and the dialled connection;
+// statistics get the user, the downlink count and the uplink count in that order.
+// ---------------------------------------------------------------------------
+
+//@ func (*TCPRelay).handleConn
+//@   requires !isnil(s) && !isnil(lnc) && !isnil(clientTCPConn) && !isnil(s.router)
+//@   requires len(s.router.routes) >= 1 && len(s.router.routes[len(s.router.routes) - 1].criteria) == 0
+//@   requires 0 <= lnc.initialPayloadWaitBufferSize && lnc.initialPayloadWaitBufferSize <= 1 << 30
+//@   callsite GetTCPClient: arg2.TargetAddr == req.Addr && arg2.Username == req.Username && arg2.SourceAddrPort == clientAddrPort && arg2.ServerIndex == s.serverIndex
+//@   callsite DialStream: arg1 == req.Addr
+//@   callsite DialStream: samearray(arg2, req.Payload)
+//@   callsite DialStream: sliceoff(arg2) == sliceoff(req.Payload)
+//@   callsite DialStream: len(arg2) == len(req.Payload)
+//@   callsite Abort: isnil(clientConn)
+//@   callsite Proceed: isnil(clientConn)
+//@   callsite CollectTCPSession: arg0 == req.Username && arg1 == uint64(nr2l) && arg2 == uint64(nl2r)
+//@   callsite BidirectionalCopy: arg0 == clientConn && arg1 == remoteConn && !isnil(clientConn)
